@@ -1,7 +1,7 @@
 (* C14 property theorems. This file contains only statements closed by
    [exact lemma] and Print Assumptions. *)
 From Coq Require Import String.
-From V Require Import Common.Base C14.Compat C14.Spec C14.LowerGraph C14.CompatProofs C14.TableProofs C14.LowerClosed C14.LowerProofs C14.Constructs.
+From V Require Import Common.Base C14.Compat C14.Spec C14.LowerGraph C14.CompatProofs C14.TableProofs C14.LowerClosed C14.LowerProofs C14.Constructs C14.Sites C14.SitesProofs.
 
 (* a newer ES target never makes more features unsupported: every pair of years *)
 Theorem es_monotone : forall y1 y2 f, y1 <= y2 ->
@@ -24,10 +24,10 @@ Proof. exact es_years_match_ecma_partial_l. Qed.
 Print Assumptions es_years_match_ecma_partial.
 
 (* consequence for every ES year (all integers): syntax newer than the target per ECMA-262 is
-   in the unsupported set computed by compat.UnsupportedJSFeatures (features absent from
-   jsTable altogether -- decorators, import defer/source -- and dynamic import excepted) *)
+   in the unsupported set computed by compat.UnsupportedJSFeatures -- dynamic import excepted
+   (the one unsafe deviation, see es_year_deviations_exact) *)
 Theorem es_target_flags_newer_partial :
-  forall f y, f <> FDynamicImport -> f <> FDecorators -> f <> FImportDefer -> f <> FImportSource ->
+  forall f y, f <> FDynamicImport ->
     newer_than y f = true -> In f (unsupported_list (es_constraint y)).
 Proof. exact es_target_flags_newer_l. Qed.
 Print Assumptions es_target_flags_newer_partial.
@@ -148,3 +148,82 @@ Theorem jsx_spread_lowered : forall (U : fset) out,
   existsb (feature_eqb FObjectRestSpread) out = false.
 Proof. exact jsx_spread_lowered_l. Qed.
 Print Assumptions jsx_spread_lowered.
+
+(* ---------- deepening round ---------- *)
+
+(* exactly which rows of the ES column differ from ECMA-262, and how: dynamic import is tabled
+   ES2015 (standard: ES2020; the only UNSAFE deviation, known finding C14-dynamic-import-es2015,
+   upstream forces it in compat-table/src/index.ts); import attributes have no ES entry
+   (standard: ES2025; safe direction, esbuild strips the clause); decorators, import defer,
+   import source and inline-script have rows without any engine *)
+Theorem es_year_deviations_exact :
+  es_year_deviations = [FDynamicImport; FImportAttributes]
+  /\ es_year_unsafe_deviations = [FDynamicImport]
+  /\ table_es_year FDynamicImport = Some 2015 /\ ecma_edition FDynamicImport = Ed 2020
+  /\ table_es_year FImportAttributes = None /\ ecma_edition FImportAttributes = Ed 2025
+  /\ features_with_empty_row = [FDecorators; FImportDefer; FImportSource; FInlineScript]
+  /\ length jsTable = length all_features.
+Proof. exact es_year_deviations_exact_l. Qed.
+Print Assumptions es_year_deviations_exact.
+
+(* for every other syntax feature and EVERY year the table's verdict is the standard's *)
+Theorem es_unsupported_iff_newer : forall f y,
+  In f (map fst jsTable) -> ~ In f es_year_deviations -> ecma_edition f <> Spec.NotSyntax ->
+  (In f (unsupported_list (es_constraint y)) <-> newer_than y f = true).
+Proof. exact es_unsupported_iff_newer_l. Qed.
+Print Assumptions es_unsupported_iff_newer.
+
+(* lowering closure with NO hypothesis on U: the third case is exactly the recorded finding *)
+Theorem lowering_closed : forall (U : fset) f g,
+  U f = true -> dispose U f = Lowered -> In g (emits U f) ->
+  U g = false \/ (dispose U g = Lowered /\ rank g < rank f) \/ (g = FArraySpread /\ f = FClassField).
+Proof. exact lowering_closed_gen. Qed.
+Print Assumptions lowering_closed.
+
+(* compile soundness with NO hypothesis: for every U and every program, the only unsupported
+   syntax a successful compile writes is the silent hashbang (the two C14-hashbang findings) and the
+   array spread of `super(...arguments)` when class fields are lowered with array spread off
+   (finding C14-class-field-lowering-writes-array-spread); non-syntax switches aside *)
+Theorem compile_leaks_exact : forall (U : fset) prog out g,
+  compile U prog = Ok out -> In g out -> U g = true ->
+  g = FHashbang \/ (g = FArraySpread /\ U FClassField = true) \/ dispose U g = NotSyntax.
+Proof. exact compile_leaks_exact_l. Qed.
+Print Assumptions compile_leaks_exact.
+
+(* feature-gate inventory (translator T9): per feature, the number of markSyntaxFeature sites and
+   of Has(...) gates in parser, lowering, printer, linker, helpers, bundler, resolver, runtime is
+   the committed one *)
+Theorem gate_inventory_matches : list_eqb gates_eqb observed_gates expected_gates = true.
+Proof. exact gate_inventory_matches_l. Qed.
+Print Assumptions gate_inventory_matches.
+
+(* the features nothing ever consults: a non-syntax switch and hashbang (the finding) *)
+Theorem ungated_features_exact :
+  filter (fun f => any_count f =? 0) all_features = [FFunctionNameConfigurable; FHashbang].
+Proof. exact ungated_features_exact_l. Qed.
+Print Assumptions ungated_features_exact.
+
+Theorem lowered_features_gated : forall (U : fset) f, dispose U f = Lowered -> 1 <= has_count f.
+Proof. exact lowered_features_gated_l. Qed.
+Print Assumptions lowered_features_gated.
+
+Theorem rejected_features_marked : forall (U : fset) f, dispose U f = Rejected ->
+  1 <= mark_count f \/ marked_via_markAsyncFn f = true \/ (f = FArbitraryModuleNamespaceNames /\ 1 <= has_count f).
+Proof. exact rejected_features_marked_l. Qed.
+Print Assumptions rejected_features_marked.
+
+(* markSyntaxFeature's regenerated switch is the model's disposition *)
+Theorem mark_switch_warned : forall (U : fset) f, dispose U f = Warned <-> in_mark_cases f MWarning = true.
+Proof. exact mark_switch_warned_l. Qed.
+Print Assumptions mark_switch_warned.
+
+Theorem mark_switch_errors_rejected : forall f,
+  (in_mark_cases f MNotSupportedYet || in_mark_cases f MError) = true -> f <> FImportAttributes ->
+  dispose (fun _ => true) f = Rejected.
+Proof. exact mark_switch_errors_rejected_l. Qed.
+Print Assumptions mark_switch_errors_rejected.
+
+Theorem rejected_has_error_case : forall (U : fset) f, dispose U f = Rejected ->
+  (in_mark_cases f MNotSupportedYet || in_mark_cases f MError) = true \/ f = FArbitraryModuleNamespaceNames.
+Proof. exact rejected_has_error_case_l. Qed.
+Print Assumptions rejected_has_error_case.
